@@ -67,6 +67,35 @@ pub fn run(args: &Args) {
                 return o;
             }
         };
+        // before anything is materialised: the streaming accessor must show, sheet by sheet, what eager loading shows
+        // (every grammar-generated and API-generated file; corpus files once)
+        if k >= ncorpus * per_corpus || k % per_corpus == 0 {
+            let view = |cells: Vec<&Cell>| -> BTreeMap<String, (String, String)> {
+                cells.iter().filter(|c| !c.get_value().is_empty() || !c.get_formula().is_empty()).map(|c| (c.get_coordinate().get_coordinate(), (c.get_value().to_string(), c.get_formula().to_string()))).collect()
+            };
+            for i in 0..lazy.get_sheet_count() {
+                o.count("streamed-sheets-compared", 1);
+                o.observations += 1;
+                let got = guard(|| lazy.get_lazy_read_sheet_cells(&i).map(|cs| view(cs.get_collection_sorted())));
+                let exp = guard(|| view(eager.get_sheet_collection_no_check()[i].get_cell_collection_sorted()));
+                match (got, exp) {
+                    (Ok(Ok(g)), Ok(e)) => {
+                        if let Some((k2, ve)) = e.iter().find(|(k2, ve)| g.get(*k2) != Some(ve)) {
+                            o.div(at("lazy-stream-differs"), format!("{} sheet {}: cell {} eager {:?} streamed {:?}", origin, i, k2, ve, g.get(k2)));
+                            return o;
+                        }
+                        if let Some(k2) = g.keys().find(|k2| !e.contains_key(*k2)) {
+                            o.div(at("lazy-stream-differs"), format!("{} sheet {}: streamed cell {} {:?} does not exist eagerly", origin, i, k2, g.get(k2)));
+                            return o;
+                        }
+                    }
+                    (g, e) => {
+                        o.div(at("lazy-stream-failed"), format!("{} sheet {}: {:?} / {:?}", origin, i, g.err(), e.err()));
+                        return o;
+                    }
+                }
+            }
+        }
         let mut loaded: Vec<bool> = vec![false; lazy.get_sheet_count()];
         let mut hist: Vec<String> = vec![];
         // the first three histories of every corpus file are fixed and minimal: add / remove / rename a sheet while every
@@ -84,7 +113,7 @@ pub fn run(args: &Args) {
                 break;
             }
             let mut i = rng.below(n as u64) as usize;
-            let mut op = rng.below(15);
+            let mut op = rng.below(16);
             if focus {
                 // early sheets gain objects (comments, charts) while the later sheets stay unloaded until the save
                 i = rng.below(n.min(2) as u64) as usize;
@@ -101,6 +130,37 @@ pub fn run(args: &Args) {
                 if ws.get_highest_row().max(last_row_entry) >= 1_048_576 {
                     op = 0;
                 }
+            }
+            if op == 15 && loaded.get(i).copied().unwrap_or(true) {
+                op = 0; // the streaming accessor is only defined for sheets that are still unloaded
+            }
+            if op == 15 {
+                // the streaming accessor of a lazily opened workbook: the cells of sheet i without materialising it
+                hist.push(format!("get_lazy_read_sheet_cells({})", i));
+                o.count("op.get_lazy_read_sheet_cells", 1);
+                let view = |cells: Vec<&Cell>| -> BTreeMap<String, (String, String)> {
+                    cells.iter().filter(|c| !c.get_value().is_empty() || !c.get_formula().is_empty()).map(|c| (c.get_coordinate().get_coordinate(), (c.get_value().to_string(), c.get_formula().to_string()))).collect()
+                };
+                let got = guard(|| lazy.get_lazy_read_sheet_cells(&i).map(|cs| view(cs.get_collection_sorted())));
+                let exp = guard(|| view(eager.get_sheet_collection_no_check()[i].get_cell_collection_sorted()));
+                o.observations += 1;
+                match (got, exp) {
+                    (Ok(Ok(g)), Ok(e)) => {
+                        if let Some((k2, ve)) = e.iter().find(|(k2, ve)| g.get(*k2) != Some(ve)) {
+                            o.div(at("lazy-stream-differs"), format!("{} sheet {} after {:?}: cell {} eager {:?} streamed {:?}", origin, i, hist, k2, ve, g.get(k2)));
+                            break 'ops;
+                        }
+                        if let Some(k2) = g.keys().find(|k2| !e.contains_key(*k2)) {
+                            o.div(at("lazy-stream-differs"), format!("{} sheet {} after {:?}: streamed cell {} {:?} does not exist eagerly", origin, i, hist, k2, g.get(k2)));
+                            break 'ops;
+                        }
+                    }
+                    (g, e) => {
+                        o.div(at("lazy-stream-failed"), format!("{} sheet {}: {:?} / {:?}", origin, i, g.err().or(None), e.err()));
+                        break 'ops;
+                    }
+                }
+                continue;
             }
             uid += 1;
             let desc;
